@@ -2,8 +2,11 @@ package c05
 
 import (
 	"context"
+	"encoding/binary"
 	"fmt"
+	"io"
 	"os"
+	"runtime"
 	"sort"
 	"strings"
 	"testing"
@@ -12,6 +15,7 @@ import (
 	"tunnox-core/internal/core/storage/hybrid"
 	"tunnox-core/internal/core/storage/memory"
 	"tunnox-core/internal/packet"
+	"tunnox-core/internal/stream"
 	"tunnox-core/verif/vkit"
 	"tunnox-core/verif/vkit/miniserver"
 )
@@ -135,4 +139,88 @@ func TestStoredStateRetention(t *testing.T) {
 		}
 		vkit.Case("stored-retention:"+name, true, "stored-retention:"+name)
 	}
+}
+
+// ---------------------------------------------------------------------------
+// TestOpenConnectionRetention — "never retains memory beyond a fixed bound tied to the maximum packet body
+// size", for a connection that STAYS OPEN: a peer sends many individually legal packets whose body lengths
+// differ (so that every buffer size class of the reader is touched), each packet is consumed and dropped by
+// the caller, and then the peer goes quiet. After a garbage collection the live heap may have grown by a few
+// maximum-size bodies at most, however many packets went by.
+
+type lazyFrames struct {
+	lens []int
+	i    int
+	cur  []byte
+}
+
+func (l *lazyFrames) Read(p []byte) (int, error) {
+	for len(l.cur) == 0 {
+		if l.i >= len(l.lens) {
+			return 0, io.EOF
+		}
+		n := l.lens[l.i]
+		l.i++
+		l.cur = make([]byte, 5+n)
+		l.cur[0] = 0x22
+		binary.BigEndian.PutUint32(l.cur[1:5], uint32(n))
+	}
+	k := copy(p, l.cur)
+	l.cur = l.cur[k:]
+	return k, nil
+}
+
+func TestOpenConnectionRetention(t *testing.T) {
+	if vkit.Shard() != 0 {
+		t.Skip("single shard")
+	}
+	heap := func() uint64 {
+		runtime.GC()
+		runtime.GC()
+		var ms runtime.MemStats
+		runtime.ReadMemStats(&ms)
+		return ms.HeapAlloc
+	}
+	measure := func(lens []int) (grown int64, total int64, err error) {
+		before := heap()
+		src := &lazyFrames{lens: lens}
+		sp := stream.NewStreamProcessor(src, io.Discard, context.Background())
+		defer sp.Close()
+		for range lens {
+			pkt, _, rerr := sp.ReadPacket()
+			if rerr != nil {
+				return 0, 0, rerr
+			}
+			total += int64(len(pkt.Payload))
+			pkt = nil
+		}
+		// the peer is quiet now, the connection stays open
+		grown = int64(heap()) - int64(before)
+		if grown > 3*maxBody {
+			time.Sleep(200 * time.Millisecond)
+			grown = int64(heap()) - int64(before)
+		}
+		runtime.KeepAlive(sp)
+		return grown, total, nil
+	}
+	var lens []int
+	for i := 0; i < 24; i++ {
+		lens = append(lens, (1<<20)+i*389_120+i) // 1 MiB .. ~9.5 MiB, every one in a different 4 KiB class
+	}
+	c := DecCase{Kind: "open-connection-retention"}
+	vkit.Journal("decoder", c)
+	grown, total, err := measure(lens)
+	if err == nil && grown > 3*maxBody {
+		grown, total, err = measure(lens) // an independent second measurement must confirm it
+	}
+	if err != nil {
+		vkit.Violation(t, "C05/harness/open-connection-retention", err.Error(), c)
+		return
+	}
+	if grown > 3*maxBody {
+		vkit.Violation(t, "C05/connection-retains-memory-after-packets-were-consumed",
+			fmt.Sprintf("a peer sent %d legal packets (%d body bytes in all, every length in a different size class), each was read and dropped; with the connection still open the live heap after GC has grown by %d bytes (bound %d = 3 maximum bodies)", len(lens), total, grown, 3*maxBody), c)
+		return
+	}
+	vkit.Case("open-connection-retention", true, "open-connection-retention")
 }
